@@ -15,6 +15,7 @@ import (
 	"k8s.io/client-go/util/workqueue"
 
 	execution "github.com/furiko-io/furiko/apis/execution/v1alpha1"
+	furikoclient "github.com/furiko-io/furiko/pkg/generated/clientset/versioned"
 	execclient "github.com/furiko-io/furiko/pkg/generated/clientset/versioned/typed/execution/v1alpha1"
 	executioninformers "github.com/furiko-io/furiko/pkg/generated/informers/externalversions/execution/v1alpha1"
 	executionlisters "github.com/furiko-io/furiko/pkg/generated/listers/execution/v1alpha1"
@@ -269,3 +270,19 @@ func (c *jobConfigsClient) UpdateStatus(ctx context.Context, jc *execution.JobCo
 	}
 	return jc, nil
 }
+
+// ---- clientsets ----
+
+type FurikoClientset struct {
+	furikoclient.Interface
+	Exec *ExecClient
+}
+
+func (c *FurikoClientset) ExecutionV1alpha1() execclient.ExecutionV1alpha1Interface { return c.Exec }
+
+type Clientsets struct {
+	controllercontext.Clientsets
+	F *FurikoClientset
+}
+
+func (c *Clientsets) Furiko() furikoclient.Interface { return c.F }
